@@ -66,8 +66,10 @@ class UseDefaults(Contract):
         dw, dl = a.defaults["dev"]
         gw, gl = st0.heap.get("w", a.params.z), st0.heap.get("l", a.params.z)
         xw, xl = z3.If(gw == NULL, dw.z, gw), z3.If(gl == NULL, dl.z, gl)
-        # (Sky130 passes the choice through scale_param, GF180 returns it as it is)
-        return z3.And(z3.Or(res[0].z == xw, res[0].z == SCALED(xw)), z3.Or(res[1].z == xl, res[1].z == SCALED(xl)))
+        # Sky130 works in microns and passes the choice through scale_param; GF180 returns it as it is
+        if "sky130" in self.key:
+            return z3.And(res[0].z == SCALED(xw), res[1].z == SCALED(xl))
+        return z3.And(res[0].z == xw, res[1].z == xl)
     posts = property(lambda self: [("given-or-default,each-on-its-own", self.p_sizes)])
 
 
